@@ -92,6 +92,8 @@ func Alphabet(names ...string) []Letter {
 	// ipv6
 	reg(Letter{Name: "ADD v6 q@D ->1", NI: D, Op: add, Entry: ribx.V6Entry("2001:db8::/32", 1, "", nil)})
 	reg(Letter{Name: "ADD v6 q@D ->2", NI: D, Op: add, Entry: ribx.V6Entry("2001:db8::/32", 2, "", nil)})
+	reg(Letter{Name: "ADD v6 q@D ->1@V", NI: D, Op: add, Entry: ribx.V6Entry("2001:db8::/32", 1, V, nil)})
+	reg(Letter{Name: "ADD mpls 100@D ->1@V", NI: D, Op: add, Entry: ribx.MPLSEntry(100, 1, V, nil)})
 	reg(Letter{Name: "DELETE v6 q@D", NI: D, Op: del, Entry: ribx.V6Entry("2001:db8::/32", 0, "", nil)})
 	// mpls
 	reg(Letter{Name: "ADD mpls 100@D ->1", NI: D, Op: add, Entry: ribx.MPLSEntry(100, 1, "", nil)})
